@@ -77,7 +77,7 @@ def _mk_corpus():
         add(cid, {name: text.encode()}, name, name, list(args), ["pf", "pfe"])
         ents[-1]["control"] = True
     ctl("scale/elif-chain", "elif_chain.c", "#if 0\n" + "#elif 0\n" * 8000 + "#else\nint reached;\n#endif\n")
-    ctl("scale/macro-chain", "macro_chain.c", "#define M0 7\n" + "".join("#define M%d M%d\n" % (i, i - 1) for i in range(1, 901)) + "int x = M900;\n")
+    ctl("scale/macro-chain", "macro_chain.c", "#define M0 7\n" + "".join("#define M%d M%d\n" % (i, i - 1) for i in range(1, 501)) + "int x = M500;\n")
     ctl("scale/deep-parens", "deep_parens.c", "int x = " + "(" * 20000 + "1" + ")" * 20000 + ";\n")
     ctl("scale/deep-namespaces", "deep_ns.h", "".join("namespace n%d {\n" % i for i in range(1200)) + "int z;\n" + "}\n" * 1200, ["-D__cplusplus"])
     ctl("scale/nested-if", "nested_if.c", "#if 1\n" * 5000 + "int deep;\n" + "#endif\n" * 5000)
